@@ -132,7 +132,8 @@ def run(ctx: Ctx) -> int:
     if part == "sim":
         known_w = []
     else:
-        known_w = known
+        # (requestor signatures are found and witnessed by the pair instance of the C06 check; this check's model is the acceptor node)
+        known_w = [k for k in known if k.get("role") == "acceptor"]
     write_model(ctx, "MC_C05", known, maxpeer=3 if thorough else 2, maxtick=1)
     r = must_ok(run_tlc("MC_C05", workdir=ctx.work, spec_dir=ctx.work, coverage=not thorough, timeout=3000,
                         extra=["-fp", "1"] if part == "sim" else None)) if part != "sim" else None
